@@ -447,6 +447,10 @@ def run(ctx):
                 rigs.append(Rig(m, d))
             except Fail as f:
                 ctx.add_violation('build', f, m)
+            except HarnessError:
+                if 'dict_names' not in m['sm'].get('features', []):
+                    raise
+                ctx.inconclusive['dictionary-named model collides with harness / system header'] += 1
         seen_sigs = set()
 
         def violation(clause, f, case):
